@@ -43,6 +43,17 @@ pub unsafe fn write(addr: u64, bytes: &[u8]) {
     std::ptr::copy_nonoverlapping(bytes.as_ptr(), addr as *mut u8, bytes.len());
 }
 
+/// Harness-side write into a region the code under test may have re-protected in the meantime
+/// (an installation is free to leave a code page r-x or rwx): the pages are made writable first.
+/// # Safety
+/// `[addr, addr+bytes.len())` must be mapped.
+pub unsafe fn write_force(addr: u64, bytes: &[u8]) {
+    let start = addr & !0xFFF;
+    let end = (addr + bytes.len() as u64 + 0xFFF) & !0xFFF;
+    libc::mprotect(start as *mut c_void, (end - start) as usize, RW);
+    write(addr, bytes);
+}
+
 /// # Safety
 /// `[addr, addr+len)` must be readable.
 pub unsafe fn read(addr: u64, len: usize) -> Vec<u8> {
